@@ -275,8 +275,8 @@ def cases(rng, tier):
         out += exhaustive(INIT_MIXED, first_all, FULL_ALPHA, 2, 'exh3')
         out += exhaustive(INIT_I16, first_all, FULL_ALPHA, 2, 'exh3')
         out += exhaustive(INIT_MIXED, first_all, FULL_ALPHA, 3, 'exh4')
-        out += exhaustive(INIT_MIXED, first_mm[:4:3] + first_mm[4:5], SMALL_ALPHA, 4, 'exh5')
-        out += random_cases(rng, 40000)
+        out += exhaustive(INIT_MIXED, [first_mm[0], first_mm[4]], SMALL_ALPHA, 4, 'exh5')
+        out += random_cases(rng, 20000)
     else:   # search
         out += exhaustive(INIT_MIXED, first_all, FULL_ALPHA, 2, 'exh3')
         out += random_cases(rng, 6000, safe_bias=0.9)
@@ -286,6 +286,8 @@ def cases(rng, tier):
 # ------------------------------------------------------------------------------------------- running children
 
 CHUNK = 250
+MAX_CRASHES = 120       # beyond this the tree is plainly broken; stop paying a process start per crash
+_NCRASH = [0]
 
 
 def _parse_out(path, jobs):
@@ -358,8 +360,19 @@ def _run_chunk(jobs, workroot):
             break
         shutil.rmtree(jd, ignore_errors=True)
         if done == 0:
-            raise RuntimeError(f'C09 child made no progress: rc={proc.returncode} {proc.stderr.decode()[-600:]}')
+            # not a statement about nibabel: the child could not even start (surfaces as a broken correspondence)
+            msg = 'ERR:infrastructure child made no progress rc=%s %s' % (
+                proc.returncode, proc.stderr.decode()[-200:].replace('\n', ' '))
+            for k, d in todo:
+                results[k] = (msg, [])
+            break
         todo = todo[done:]
+        if todo and len(todo) < len(jobs):
+            _NCRASH[0] += 1
+            if _NCRASH[0] > MAX_CRASHES:
+                for k, d in todo:
+                    results[k] = ('SKIPPED:more-than-%d-child-crashes-in-this-run' % MAX_CRASHES, [])
+                break
     return results
 
 
@@ -571,12 +584,18 @@ def _child(jobfile, outfile, workdir):
     for i, job in enumerate(jobs):
         init, ops, big = job['init'], job['ops'], bool(job.get('big'))
         shape = BIG if big else SMALL
-        td, init_toks = template(init, big)
+        emit(i=i, op=None)
+        try:
+            td, init_toks = template(init, big)
+        except Exception as e:      # the plain `Class(arr, affine).to_filename(name)` of the set-up failed
+            emit(i=i, prob='op#0 setup: creating the initial files raised ' + repr(e)[:200])
+            emit(i=i, tok='ERR:setup')
+            emit(i=i, end=True)
+            continue
         d = tempfile.mkdtemp(dir=workdir)
         for fn in os.listdir(td):
             shutil.copyfile(os.path.join(td, fn), os.path.join(d, fn))
         P = [os.path.join(d, n) for n in PATHS]
-        emit(i=i, op=None)
         img = None
         live = None            # snapshot of the data the live image had when loaded
         last_tok = {}          # path index -> content token right after the last save onto it
@@ -635,6 +654,8 @@ def _child(jobfile, outfile, workdir):
                     tok = 'D:ok'
                 except Exception:
                     tok = 'D:ERR'
+            elif c == 'B' and not hasattr(img, 'to_bytes'):
+                tok = 'B:ERR'       # pair images are not serialisable to one byte string; nothing is read
             elif c in 'SB':
                 try:
                     pre = np.array(img.dataobj)
